@@ -16,7 +16,11 @@ ANCHORS = [("deap/gp.py", ["PrimitiveTree.__init__", "PrimitiveTree.__deepcopy__
                            "PrimitiveTree.searchSubtree", "PrimitiveSetTyped._add", "PrimitiveSetTyped.terminalRatio",
                            "generate", "genFull", "genGrow", "genHalfAndHalf", "genRamped", "cxOnePoint", "cxOnePointLeafBiased",
                            "mutUniform", "mutNodeReplacement", "mutEphemeral", "mutInsert", "mutShrink",
-                           "staticLimit"])]
+                           "staticLimit", "mutSemantic", "cxSemantic",
+                           "PrimitiveSetTyped.__init__", "PrimitiveSetTyped.addPrimitive", "PrimitiveSetTyped.addTerminal",
+                           "PrimitiveSetTyped.addEphemeralConstant", "PrimitiveSetTyped.addADF",
+                           "PrimitiveSetTyped.renameArguments", "PrimitiveSet.__init__", "PrimitiveSet.addPrimitive",
+                           "PrimitiveSet.addTerminal", "PrimitiveSet.addEphemeralConstant", "MetaEphemeral.__new__"])]
 LEVEL = "proof"
 RULE = ("primitive sets: 4 loose, 8 strongly typed (subclass pairs, object-rooted, terminals-only type, strict-subclass "
         "returning primitive, two distinct homonymous types) and 6 with the int/bool/float vocabulary registered in shuffled order; "
@@ -28,14 +32,21 @@ RULE = ("primitive sets: 4 loose, 8 strongly typed (subclass pairs, object-roote
         "every step and replayed as a whole by the model; then every operator (cxOnePoint, cxOnePointLeafBiased, mutUniform with "
         "the three replacement generators, mutNodeReplacement, mutEphemeral one/all, mutInsert, mutShrink), bare and wrapped by "
         "staticLimit(len | height), on trees from the real generators incl. single-node trees, with the recorded tape "
-        "replayed by the Lean model; height, __setitem__ guards, _add pools. "
+        "replayed by the Lean model; height, __setitem__ guards, _add pools; "
+        "geometric semantic operators (mutSemantic with given / drawn ms, cxSemantic) on 4 loosely typed GSGP sets, one strongly "
+        "typed one and sets lacking one of lf/mul/add/sub (the assertion), generators full/grow/half-and-half, replayed by the model; "
+        "declaration histories of PrimitiveSetTyped / PrimitiveSet (addPrimitive, addTerminal, addEphemeralConstant, addADF, "
+        "renameArguments, pool reads in between, deliberate name clashes) in random orders against the whole state of the real "
+        "object (pools in key order, mapping, context, arguments, counters, terminalRatio). "
         "Non-trivial = distinct case in which the operator changed a tree / the generated tree has more than one node")
 EXHAUSTIVE = {"quick": False, "thorough": False}
 TIME_BUDGET = {"quick": 50, "thorough": 800}
 TRUSTED = ["CPython list slicing / slice assignment / defaultdict / issubclass (slice assignment modelled as take ++ val ++ drop)",
            "random.randint(a, b) returns a value in [a, b], random.randrange(a, b) one in [a, b), random.choice(seq) an element "
            "of seq (the contracts the tape draws are checked against)",
-           "IEEE-754 double division and comparison (terminalRatio, termpb) are the same operation in Lean's Float"]
+           "IEEE-754 double division and comparison (terminalRatio, termpb) are the same operation in Lean's Float",
+           "random.uniform(a, b) is a + (b - a) * random() (CPython's definition; the tape records it that way), repr / str of the "
+           "Python values handed to addTerminal (transported as text)"]
 ASSUMPTIONS = ["an index of searchSubtree is read as Python reads a list index: -len <= i < len, a negative one counting from "
                "the end; the returned slice must select exactly the nodes of the subtree rooted at tree[i] (slice.indices), "
                "whether its start is reported negative or normalised is not demanded; other ints are no node's index "
@@ -52,7 +63,13 @@ ASSUMPTIONS = ["an index of searchSubtree is read as Python reads a list index: 
                "an operator wrapped by staticLimit gets at least its first tree POSITIONALLY (the wrapper keeps copies of the "
                "leading positional arguments as fall-back parents; with every tree passed by keyword that pool is empty "
                "and an over-limit child makes it raise — out of domain); the second parent of a crossover and the other "
-               "parameters may be positional or keywords, all forms are exercised"]
+               "parameters may be positional or keywords, all forms are exercised",
+               "semantic operators: the title's 'all operators' is read to include mutSemantic / cxSemantic on sets where their own "
+               "precondition holds (lf unary, add/mul/sub binary, all over `object`: a loosely typed set) - there the offspring must be "
+               "complete and well typed; in a strongly typed set the constant they create is declared `object` and the offspring is "
+               "compared with the model only (observation); the two parents of cxSemantic are distinct objects; ms is a float",
+               "declaration histories: names and printed constants contain none of the protocol separators; a symbol's identity is "
+               "its value (name, types, text) - two argument terminals never share a name unless a renaming made them"]
 MIN_CASES = 2000
 CASE_TIMEOUT = 10
 EXPLANATION = ("Closure theorems for every `.ok` result — per operator and, by induction over the operator list, along every "
@@ -449,6 +466,343 @@ def get_ps(name):
 
 
 # ----------------------------------------------------------------------------------------------
+# sets for the geometric semantic operators (they need 'lf', 'mul', 'add', 'sub' in pset.mapping)
+# ----------------------------------------------------------------------------------------------
+
+def f_lf(x):
+    import math
+    return 1 / (1 + math.exp(-x))
+
+
+def build_gs(name, nargs, extra=(), miss=None, eph=True):
+    ps = PS(name, False, nargs, None, [])
+    p = ps.pset
+    items = [("sub", f_sub, 2), ("lf", f_lf, 1), ("add", f_add, 2), ("mul", f_mul, 2)] + list(extra)
+    for nm, f, ar in items:
+        if nm != miss:
+            p.addPrimitive(f, ar, name=nm)
+    p.addTerminal(3)
+    if nargs == 0:
+        p.addTerminal(-1)
+    if eph:
+        p.addEphemeralConstant(uniq("G"), _eph)
+    return ps
+
+
+def build_gsT():
+    # a strongly typed GSGP set over float: the operators create constants declared `object` (model only, no oracle)
+    ps = PS("gsT", True, [float], float, [float])
+    p = ps.pset
+    p.addPrimitive(f_sub, [float, float], float, name="sub")
+    p.addPrimitive(f_lf, [float], float, name="lf")
+    p.addPrimitive(f_add, [float, float], float, name="add")
+    p.addPrimitive(f_mul, [float, float], float, name="mul")
+    p.addTerminal(0.5, float)
+    return ps
+
+
+GS_BUILDERS = {"gs1": lambda: build_gs("gs1", 1), "gs2": lambda: build_gs("gs2", 2, [("neg", f_neg, 1), ("max3", f_max3, 3)]),
+               "gs0": lambda: build_gs("gs0", 0, eph=False), "gs3": lambda: build_gs("gs3", 1, [("ite", f_ite, 3)]),
+               "gsT": build_gsT,
+               "gsm_lf": lambda: build_gs("gsm_lf", 1, miss="lf"), "gsm_mul": lambda: build_gs("gsm_mul", 1, miss="mul"),
+               "gsm_add": lambda: build_gs("gsm_add", 1, miss="add"), "gsm_sub": lambda: build_gs("gsm_sub", 1, miss="sub")}
+GS_OK = ["gs1", "gs2", "gs0", "gs3"]
+GS_MISS = ["gsm_lf", "gsm_mul", "gsm_add", "gsm_sub"]
+
+
+def get_gs(name):
+    if name not in _cache:
+        _cache[name] = GS_BUILDERS[name]()
+    return _cache[name]
+
+
+def fbits_int(x):
+    import struct
+    return struct.unpack("<Q", struct.pack("<d", x))[0]
+
+
+def sem_node_tok(ps, n, own):
+    """like PS.node_tok, but a float constant the OPERATOR created (a plain Terminal that is no node of the set) travels as
+    `F<bits>` - name and text: Python's repr of a double is not modelled"""
+    if type(n) is gp.Terminal and isinstance(n.value, float) and id(n) not in own:
+        t = "F%d" % fbits_int(n.value)
+        return "%s:%d::t:%s" % (t, ps.tid(n.ret), t)
+    return ps.node_tok(n)
+
+
+def sem_nodes_tok(ps, l, own):
+    return ",".join(sem_node_tok(ps, n, own) for n in l) if len(l) else "-"
+
+
+def own_ids(ps):
+    out = set()
+    for d in (ps.pset.primitives, ps.pset.terminals):
+        for l in d.values():
+            out.update(id(x) for x in l)
+    out.update(id(x) for x in ps.pset.mapping.values())
+    return out
+
+
+def semmap_tok(ps):
+    m = ps.pset.mapping
+    out = ["%s=%s" % (k, ps.node_tok(m[k])) for k in ("lf", "mul", "add", "sub") if k in m]
+    return ";".join(out) if out else "-"
+
+
+def eval_sem(ps, d):
+    """mutSemantic / cxSemantic on trees from the real generators, the random trees generated by the real generators on the
+    recorded tape; the whole call is replayed by the model.  Oracle (loosely typed GSGP sets only): the offspring are
+    complete, well-typed expressions."""
+    k = d["k"]
+    trees = [make_tree(ps, g, retry=50)[0] for g in d["t"]]
+    slot = ps.types[d["t"][0]["ty"]]
+    for tree in trees:
+        msg = well_formed(tree, slot)
+        if msg:
+            return Case(d, [], [], "generated expression: " + msg, tag=k)
+    own = own_ids(ps)
+    btok = [ps.nodes_tok(t) for t in trees]
+    before = [list(t) for t in trees]
+    gm = d["gm"]
+    kw = dict(gen_func=GEN[gm["mode"]], pset=ps.pset, min=gm["mn"], max=gm["mx"])
+    out, raised = None, None
+    with MyTape(rng=random.Random(d["seed"])) as tp:
+        try:
+            if k == "msem":
+                if d.get("ms") is not None:
+                    kw["ms"] = d["ms"]
+                out = list(gp.mutSemantic(trees[0], **kw))
+            else:
+                out = list(gp.cxSemantic(trees[0], trees[1], **kw))
+        except (AssertionError, KeyError) as e:
+            raised = e
+    if k == "msem":
+        line = "C11 msem %s %s %s %s %d %d %s %s" % (semmap_tok(ps), btok[0], ps.tokens(), gm["mode"], gm["mn"], gm["mx"],
+                                                     "none" if d.get("ms") is None else fbits(d["ms"]), tape_tok(ps, tp))
+    else:
+        line = "C11 cxsem %s %s %s %s %s %d %d %s" % (semmap_tok(ps), btok[0], btok[1], ps.tokens(), gm["mode"], gm["mn"],
+                                                      gm["mx"], tape_tok(ps, tp))
+    missing = [n for n in ("lf", "mul", "add", "sub") if n not in ps.pset.mapping]
+    if raised is not None:
+        # only where the set lacks one of the four names (the documented assertion); elsewhere an exception is a failure
+        orc = None if missing else "%s raised %s: %s" % (k, type(raised).__name__, raised)
+        return Case(d, [line], ["none"], orc, tag="%s/%s/raises" % (k, d["ps"]), nontrivial=False)
+    expect = "%s 0" % " ".join(sem_nodes_tok(ps, o, own) for o in out)
+    orc = None
+    if len(out) != len(trees):
+        orc = "%s returned %d trees for %d" % (k, len(out), len(trees))
+    if orc is None and d["ps"] in GS_OK:
+        for o in out:
+            if not isinstance(o, gp.PrimitiveTree):
+                orc = orc or "%s returned a %s instead of a tree" % (k, type(o).__name__)
+                continue
+            msg = well_formed(o, slot)
+            if msg:
+                orc = orc or "%s output: %s" % (k, msg)
+    lines, exp = [line], [expect]
+    if orc is None and d.get("observe") and d["ps"] in GS_OK and len(out[0]) <= 60:
+        # the read-only methods on the offspring (spans at every index, height, root)
+        nodes = sem_nodes_tok(ps, out[0], own)
+        o0 = out[0]
+        t = parse_all(list(o0))
+        sp = spans(t)
+        n = len(o0)
+        got = [span_of(o0, i) for i in range(-n, n)]
+        lines.append("C11 spans %s" % nodes)
+        exp.append("%s %d" % (",".join("none" if s_ is None else "%s:%s" % s_ for s_ in got), o0.height))
+        for i, s_ in zip(range(-n, n), got):
+            orc = orc or span_oracle(o0, i, s_, sp)
+        if orc is None and o0.height != t_height(t):
+            orc = "height %d but the deepest node is at depth %d" % (o0.height, t_height(t))
+    tag = "%s/%s/%s/%s" % (k, d["ps"], gm["mode"], "ms" if d.get("ms") is not None else "draw")
+    return Case(d, lines, exp, orc, tag=tag, nontrivial=True)
+
+
+# ----------------------------------------------------------------------------------------------
+# declaration histories of PrimitiveSetTyped / PrimitiveSet
+# ----------------------------------------------------------------------------------------------
+
+DTYPES = [object, TA, TB, TC, int, bool]          # TB is a subclass of TA, bool of int
+DFUNS = [f_add, f_sub, f_mul, f_neg, f_ite, f_lt, f_not, f_and, f_id, f_max3]
+DEPHS = [_eph, _eph2]
+
+
+def _named_const():
+    return 7
+
+
+def decl_node_tok(n, objid):
+    tid = DTYPES.index
+    if isinstance(n, gp.Primitive):
+        return "%s:%d:%s:p:" % (n.name, tid(n.ret), ".".join(str(tid(a)) for a in n.args))
+    if type(n) is gp.MetaEphemeral:
+        return "%s:%d::e:fn%d" % (n.name, tid(n.ret), objid(n.func))
+    return "%s:%d::t:%s" % (n.name, tid(n.ret), n.format())
+
+
+def tval_tok(v):
+    if isinstance(v, bool):
+        return "b1" if v else "b0"
+    if isinstance(v, int):
+        return "i%d" % v
+    if isinstance(v, float):
+        return "f%d" % fbits_int(v)
+    return "o"
+
+
+def eval_decls(d):
+    """one history from the constructor on, against the real class; it ends at the first declaration that raises"""
+    ids = {}
+
+    def objid(o):
+        # identities of the Python objects bound in `context` / the generating functions of ephemerals
+        key = id(o) if not isinstance(o, (int, float, bool, str)) else ("v", type(o).__name__, repr(o))
+        if key not in ids:
+            ids[key] = len(ids) + 1
+        return ids[key]
+    tid = DTYPES.index
+    untyped = d["untyped"]
+    pre = d.get("prefix", "ARG")
+    if untyped:
+        pset = gp.PrimitiveSet("MAIN", d["ins"], pre)
+        ins_tok = str(d["ins"])
+    else:
+        pset = gp.PrimitiveSetTyped("MAIN", [DTYPES[i] for i in d["ins"]], DTYPES[d["ret"]], pre)
+        ins_tok = ".".join(map(str, d["ins"]))
+    toks, failed = [], False
+    with warnings.catch_warnings():
+        warnings.simplefilter("ignore")
+        for op in d["ops"]:
+            k = op[0]
+            try:
+                if k == "P":
+                    _, name, fi, args, ret = op
+                    toks.append("P|%s|%d|%s|%d" % (name, objid(DFUNS[fi]), ".".join(map(str, args)), ret))
+                    pset.addPrimitive(DFUNS[fi], [DTYPES[a] for a in args], DTYPES[ret], name=name)
+                elif k == "p":
+                    _, name, fi, arity = op
+                    toks.append("p|%s|%d|%d" % (name, objid(DFUNS[fi]), arity))
+                    pset.addPrimitive(DFUNS[fi], arity, name=name)
+                elif k in ("T", "t"):
+                    name, val = op[1], op[2]
+                    if val == "<fn>":              # a callable terminal without a name takes its __name__
+                        val = _named_const
+                        eff = name if name is not None else val.__name__
+                        tv, st, rp = "o", "fn", "fn"
+                    else:
+                        eff, tv, st, rp = name, tval_tok(val), str(val), repr(val)
+                    head = "%s|%s|%d|%s|%s|%s" % (k, "~" if eff is None else eff, objid(val), tv, st, rp)
+                    if k == "T":
+                        toks.append(head + "|%d" % op[3])
+                        pset.addTerminal(val, DTYPES[op[3]], name=name)
+                    else:
+                        toks.append(head)
+                        pset.addTerminal(val, name=name)
+                elif k == "E":
+                    _, name, fi, ret = op
+                    toks.append("E|%s|%d|%d" % (name, objid(DEPHS[fi]), ret))
+                    pset.addEphemeralConstant(name, DEPHS[fi], DTYPES[ret])
+                elif k == "e":
+                    _, name, fi = op
+                    toks.append("e|%s|%d" % (name, objid(DEPHS[fi])))
+                    pset.addEphemeralConstant(name, DEPHS[fi])
+                elif k == "A":
+                    _, name, ins, ret = op
+                    toks.append("A|%s|%s|%d" % (name, ".".join(map(str, ins)), ret))
+                    pset.addADF(gp.PrimitiveSetTyped(name, [DTYPES[a] for a in ins], DTYPES[ret]))
+                elif k == "R":
+                    toks.append("R|%s" % (",".join("%s>%s" % tuple(kv) for kv in op[1]) if op[1] else "-"))
+                    pset.renameArguments(**dict(op[1]))
+                elif k == "rP":
+                    toks.append("rP|%d" % op[1])
+                    pset.primitives[DTYPES[op[1]]]
+                elif k == "rT":
+                    toks.append("rT|%d" % op[1])
+                    pset.terminals[DTYPES[op[1]]]
+                else:
+                    raise ValueError(k)
+            except (AssertionError, KeyError, AttributeError) as e:
+                failed = type(e).__name__
+                break
+            except Exception as e:  # noqa  (the two `raise Exception(...)` of addEphemeralConstant)
+                if type(e) is not Exception:
+                    raise
+                failed = "Exception"
+                break
+    n = len(DTYPES)
+    sub = ",".join("%d.%d" % (a, b) for a in range(n) for b in range(n) if issubclass(DTYPES[a], DTYPES[b]))
+    line = "C11 decls %s %d %s %s %s" % (sub, 1 if untyped else 0, ins_tok if ins_tok != "" else "", pre if pre else "~",
+                                         ";".join(toks) if toks else "-")
+    if not untyped and not d["ins"]:
+        line = "C11 decls %s 0 - %s %s" % (sub, pre if pre else "~", ";".join(toks) if toks else "-")
+    if failed:
+        return Case(d, [line], ["none"], None, tag="decls/%s/raises-%s" % ("untyped" if untyped else "typed", failed),
+                    nontrivial=True)
+
+    def pool(dd):
+        return ";".join("%d=%s" % (tid(t), ",".join(decl_node_tok(x, objid) for x in l)) for t, l in dd.items()) if dd else "-"
+    mp = ";".join("%s=%s" % (kk, decl_node_tok(v, objid)) for kk, v in pset.mapping.items()) if pset.mapping else "-"
+    ctx = [(kk, v) for kk, v in pset.context.items() if kk != "__builtins__"]
+    ctxt = ",".join("%s=%d" % (kk, objid(v)) for kk, v in ctx) if ctx else "-"
+    try:
+        ratio = fbits(pset.terminalRatio)
+    except ZeroDivisionError:
+        ratio = "none"
+    exp = "%s %s %s %s %s %d %d %s" % (pool(pset.primitives), pool(pset.terminals), mp, ctxt,
+                                       ",".join(pset.arguments) if pset.arguments else "-", pset.terms_count,
+                                       pset.prims_count, ratio)
+    reads = any(op[0] in ("rP", "rT") for op in d["ops"])
+    return Case(d, [line], [exp], None, tag="decls/%s/%s%s" % ("untyped" if untyped else "typed", len(d["ops"]),
+                                                               "/reads" if reads else ""), nontrivial=len(d["ops"]) > 0)
+
+
+def decls_desc(rng, untyped):
+    """a random history: the same vocabulary in a random order, with deliberate clashes now and then"""
+    if untyped:
+        d = {"k": "decls", "untyped": True, "ins": rng.choice([0, 1, 2, 3]), "ops": []}
+    else:
+        d = {"k": "decls", "untyped": False, "ins": [rng.randrange(1, 6) for _ in range(rng.choice([0, 1, 2, 2]))],
+             "ret": rng.randrange(0, 6), "ops": []}
+    if rng.random() < 0.2:
+        d["prefix"] = rng.choice(["IN", "x", "A_"])
+    pre = d.get("prefix", "ARG")
+    nargs = d["ins"] if untyped else len(d["ins"])
+    names = ["f", "g", "h", "k", "m", "add", "lf"]
+    tnames = ["one", "pi", "b1", "c"]
+    enames = ["E", "R"]
+    ops = []
+    ty = lambda: rng.randrange(1, 6) if rng.random() < 0.85 else 0
+    for _ in range(rng.randint(2, 9)):
+        r = rng.random()
+        if r < 0.38:
+            name = rng.choice(names)
+            if untyped:
+                ops.append(["p", name, rng.randrange(len(DFUNS)), rng.choice([1, 1, 2, 2, 3, 0])])
+            else:
+                ops.append(["P", name, rng.randrange(len(DFUNS)), [ty() for _ in range(rng.choice([1, 2, 2, 3]))], ty()])
+        elif r < 0.68:
+            name = rng.choice(tnames + [None, None, None])
+            val = rng.choice([1, 0, -1, 2, 0.5, 1.0, True, False, "ab", "<fn>", 7])
+            if rng.random() < 0.05:
+                name = rng.choice(names)                     # clashes with a primitive's name
+            ops.append(["t", name, val] if untyped else ["T", name, val, ty()])
+        elif r < 0.82:
+            name = rng.choice(enames + ([rng.choice(names)] if rng.random() < 0.1 else []))
+            ops.append(["e", name, rng.randrange(2)] if untyped else ["E", name, rng.randrange(2), ty()])
+        elif r < 0.88 and not untyped:
+            ops.append(["A", rng.choice(["ADF0", "ADF1"]), [ty() for _ in range(rng.choice([0, 1, 2]))], ty()])
+        elif r < 0.95 and nargs:
+            olds = ["%s%d" % (pre, i) for i in range(nargs)]
+            news = rng.sample(["x", "y", "z"] + olds, min(len(olds), rng.randint(1, 2)))
+            ops.append(["R", [[o, n] for o, n in zip(rng.sample(olds, len(news)), news)]])
+        elif rng.random() < 0.5:
+            ops.append([rng.choice(["rP", "rT"]), rng.randrange(0, 6)])
+    rng.shuffle(ops)
+    d["ops"] = ops
+    return d
+
+
+# ----------------------------------------------------------------------------------------------
 # tape -> protocol
 # ----------------------------------------------------------------------------------------------
 
@@ -464,6 +818,13 @@ def tape_tok(ps, tp):
             a = d[1]
             lo, hi = (0, a[0]) if len(a) == 1 else (a[0], a[1])
             out.append("g%d.%d.%d" % (lo, hi, d[2]))
+        elif k == "uniform":
+            # random.uniform(a, b) = a + (b - a) * random(): the model reads ONE `rnd` draw and computes 0 + (2 - 0) * x;
+            # another range is not what mutSemantic asks for: an unreadable token (the model answers bad-op)
+            if (d[1], d[2]) == (0, 2):
+                out.append("r" + fbits(d[3] / 2.0)[2:])
+            else:
+                out.append("u%r.%r" % (d[1], d[2]))
         elif k == "choice":
             # also `random.choice(common_types)` of the crossovers: the list is in order of first occurrence in
             # ind1 (no longer a set of classes), so the plain index is reproducible and the model checks the order
@@ -940,6 +1301,10 @@ def eval_seq(ps, d):
 
 def evaluate(d):
     k = d["k"]
+    if k == "decls":
+        return eval_decls(d)
+    if k in ("msem", "cxsem"):
+        return eval_sem(get_gs(d["ps"]), d)
     ps = get_ps(d["ps"])
     if k == "gen":
         tree, tp = make_tree(ps, d)
@@ -1228,6 +1593,28 @@ def generate(tier, rng, mult):
     thorough = tier == "thorough"
     for name in PSNAMES:
         yield {"k": "add", "ps": name}
+    # geometric semantic operators: every GSGP set x generator x (ms given / drawn), the assertion on incomplete sets
+    nsem = (6000 if thorough else 360) * mult
+    for i in range(nsem):
+        name = (GS_OK + ["gsT"])[i % 5] if i % 12 else GS_MISS[(i // 12) % 4]
+        ps = get_gs(name)
+        k = "msem" if (i // 12 + i) % 2 == 0 else "cxsem"
+        g = rand_tree_desc(rng, ps, small=True)
+        g["ty"] = ps.tid(ps.pset.ret)
+        d = {"k": k, "ps": name, "t": [g], "seed": rng.randrange(1 << 30),
+             "gm": {"mode": rng.choice(["full", "grow", "half"]), "mx": rng.choice([0, 1, 2, 2, 3])}}
+        d["gm"]["mn"] = rng.randint(0, d["gm"]["mx"])
+        if k == "cxsem":
+            h = rand_tree_desc(rng, ps, small=True)
+            h["ty"] = g["ty"]
+            d["t"].append(h)
+        elif rng.random() < 0.5:
+            d["ms"] = rng.choice([0.5, 1.0, 0.1, 2.0, 0.0, -1.5, rng.random() * 2])
+        d["observe"] = i % 3 == 0
+        yield d
+    # declaration histories (typed and untyped) in random orders
+    for i in range((20000 if thorough else 1200) * mult):
+        yield decls_desc(rng, untyped=i % 3 == 2)
     # searchSubtree at every Python index (negative ones count from the end, as the list is indexed)
     for i in range((3000 if thorough else 240) * mult):
         ps = get_ps(PSNAMES[i % len(PSNAMES)])
@@ -1321,6 +1708,12 @@ def shrink(d):
     if d["k"] == "gen":
         for h in smaller(d):
             yield h
+        return
+    if d["k"] == "decls":
+        for n in range(len(d["ops"]) - 1, -1, -1):           # drop one declaration (from the end)
+            e = dict(d)
+            e["ops"] = d["ops"][:n] + d["ops"][n + 1:]
+            yield e
         return
     if d["k"] == "seq":
         st = d["steps"]
